@@ -313,6 +313,10 @@ def run(run):
         for ck in gen(run, E):
             fails += ck.failed
     finish_engine(E, run)
+    # callee contract: conditions are grouped by get_unique_inverse (labels in order of first appearance, every observation under
+    # its own label) -- discharged on the real function
+    from contracts.common import discharge_unique_inverse
+    fails += discharge_unique_inverse(run, 'C01')
     fails += tier_b(run, run.tier == 'thorough')
     finish(run, fails, 'C01')
     run.explanation = ('engine A: option / noise plumbing of calc_rdm (list vs single, every option forwarded, dispatch, alphabetical '
